@@ -288,9 +288,9 @@ def main(tier, seed):
                 continue
             for k in ks:
                 specs.append({"op": op, "k": k, "hw": hw})
-    nseq = 12 if tier == "thorough" else 4
+    nseq = 32 if tier == "thorough" else 4
     for i in range(nseq):
-        specs.append({"kind": "seq", "seed": seed * 1000 + i, "length": 300 if tier == "thorough" else 120, "period": [1, 3, 10, 25][i % 4],
+        specs.append({"kind": "seq", "seed": seed * 1000 + i, "length": 500 if tier == "thorough" else 120, "period": [1, 3, 10, 25][i % 4],
                       "hw": "generic" if i % 2 == 0 else "nv"})
     nested = nested_programs()
     specs += nested
@@ -298,7 +298,7 @@ def main(tier, seed):
                   f"{len(DSL_OPS)} non-EPR operation kinds (every atom / loop / foreach / enumerate / loop_until / if-wrapper of C05's DSL, nested "
                   f"wrappers) and {len(EPR_OPS)} EPR operation kinds (keep, sequential with post routine, min-fidelity loop, measure, rsp, "
                   f"contexts; create and receive) x nesting depth k in {ks} x generic/NV hardware config",
-                  f"{nseq} seeded sequences of {300 if tier == 'thorough' else 120} completed operations with a flush every 1/3/10/25 operations"]
+                  f"{nseq} seeded sequences of {500 if tier == 'thorough' else 120} completed operations with a flush every 1/3/10/25 operations"]
     rep.outside = ["operations not in the list (tomography helpers, toolbox functions)", "k > 12"]
     rep.stubs = ["NullExecutor: flushed subroutines are compiled but not executed (execution equivalence is C05)",
                  "long sequences: qubit handles left active by EPR contexts are deactivated by the harness after each EPR operation (C09's subject)"]
